@@ -276,6 +276,14 @@ case("flageq kept: the other value may be None", {"m": "def f(h, r, k):\n    c =
 case("flageq kept: the condition's variable is re-bound later", {"m": "def f(h, r, k):\n    c = h[0]\n    if c == 7:\n        d = None\n    else:\n        d = bytes(r())\n    c = k(c)\n    if d is None:\n        return (c, None)\n    return (c, d)\n"},
      "m", "f", has=["is None"])
 
+# -- records held in a constructor-bound attribute ------------------------------------------------------------------------------------------------
+_CT = "class Ctr(object):\n    def __init__(self):\n        self.value = 0\n    def advance(self):\n        self.value += 1\n        if self.value == 8:\n            self.value = 1\n"
+_DV = "from .h import Ctr\nclass D(object):\n    def __init__(self):\n        self._ids = Ctr()\n    @property\n    def _id(self):\n        return self._ids.value\n    @_id.setter\n    def _id(self, v):\n        self._ids.value = v\n    def f(self, g):\n        self._ids.advance()\n        return g(self._id)\n"
+case("attribute record flattened; the alias property becomes the attribute", {"h": _CT, "m": _DV}, "m", "f", has=["self._id += 1", "g(self._id)"], lacks=["_ids"])
+case("attribute record kept: the record object is handed to somebody", {"h": _CT, "m": _DV + "    def k(self, g):\n        return g(self._ids)\n"}, "m", "f", has=["self._ids.value"])
+case("attribute record kept: another class reaches into it", {"h": _CT, "m": _DV + "class E(object):\n    def k(self, d):\n        return d._ids.value\n"}, "m", "f", has=["self._ids.value"])
+case("attribute record kept: re-bound outside the constructor", {"h": _CT, "m": _DV + "    def k(self):\n        self._ids = Ctr()\n"}, "m", "f", has=["self._ids"])
+
 
 def main():
     bad = 0
